@@ -453,6 +453,11 @@ func c01R2(c *Ctx) {
 		"pkg/eni.Local.Allocate": "fast path: marks the peeked address under the lock",
 		"pkg/eni.Local.commit":   "marks the address being replied",
 	})
+	c.WhoMayCallDeep("C01.R2", "call (*IP).Allocate", []*types.Func{allocM}, map[string]string{
+		"pkg/eni.Local.load":     "restores ownership from the database before the workers start (C05)",
+		"pkg/eni.Local.Allocate": "fast path: marks the peeked address under the lock",
+		"pkg/eni.Local.commit":   "marks the address being replied",
+	})
 	c.Floor("C01.R2", "(*IP).Allocate call sites", 7, len(sites))
 
 	isIPPtr := func(t types.Type) bool { return typeIs(t, full, "IP") }
@@ -860,6 +865,7 @@ func c01R5(c *Ctx) {
 	}
 	sites := p.CallsTo(nil, setInv)
 	c.WhoMay("C01.R5", "call IP.SetInvalid", groupCalls(sites), map[string]string{"pkg/eni.syncIPLocked": "remote removal"})
+	c.WhoMayCallDeep("C01.R5", "call IP.SetInvalid", []*types.Func{setInv}, map[string]string{"pkg/eni.syncIPLocked": "remote removal"})
 	c.Floor("C01.R5", "SetInvalid call sites", 1, len(sites))
 	// the local set built from the 'remote' parameter
 	remoteParam := fn.Info().Defs[fn.Decl.Type.Params.List[1].Names[0]]
